@@ -1,0 +1,35 @@
+//go:build verif
+
+package webserver
+
+import (
+	"net/http"
+	"os"
+)
+
+// Add-only exports for the C18 correspondence drivers (etag, descstore).
+
+// VerifEtagScan is scanETag.
+func VerifEtagScan(s string) (string, string) { return scanETag(s) }
+
+// VerifEtagMatch is etagMatch.
+func VerifEtagMatch(etag, header string) bool { return etagMatch(etag, header) }
+
+// VerifEtagCheckPreconditions is checkPreconditions.
+func VerifEtagCheckPreconditions(w http.ResponseWriter, r *http.Request, etag string) bool {
+	return checkPreconditions(w, r, etag)
+}
+
+// VerifEtagAPIHandler is apiHandler (the /galene-api/ entry point).
+func VerifEtagAPIHandler(w http.ResponseWriter, r *http.Request) { apiHandler(w, r) }
+
+// VerifEtagSetStaticRoot opens the static root as Serve does (notFound reads
+// 404.html from it).
+func VerifEtagSetStaticRoot(dir string) error {
+	root, err := os.OpenRoot(dir)
+	if err != nil {
+		return err
+	}
+	staticRoot = root
+	return nil
+}
